@@ -171,7 +171,7 @@ def scaling(origin, destination):
         scale = PREFIX_FACTORS[org_prefix]
     elif not org_prefix and dest_prefix:
         scale = 1.0 / PREFIX_FACTORS[dest_prefix]
-    elif not org_prefix and not dest_prefix:
+    elif org_prefix and dest_prefix:
         scale = PREFIX_FACTORS[org_prefix] / PREFIX_FACTORS[dest_prefix]
 
     if org_power:
